@@ -335,11 +335,11 @@ def gen_dro_sep(rng, cfg):
                                [s_x[k]] + ([prev] if prev else []), role='adapt')
                     s_adapt.setdefault(k, []).append(prev)
                 ew_part[k] = rp.event_of()
-    # extra variable outside the objective.  In dro a decision declared after an expression was built breaks
-    # formulation (recorded finding K6), so it precedes every expression except in a rare hazard draw.
+    # extra variable outside the objective.  In dro a decision declared after an expression was built used to break
+    # formulation (finding K6, repaired by F34/F35); in a third of the runs it may follow expressions and formulations.
     ints = False
     s_u = None
-    hazard_late_dvar = rng.random() < cfg.get('p_dro_late_dvar', 0.04)
+    hazard_late_dvar = rng.random() < cfg.get('p_dro_late_dvar', 0.35)
     if rng.random() < 0.4:
         vt = 'C' if cone == 'exp' else rng.choice(['C', 'I', 'B'])
         ints = vt != 'C'
@@ -606,8 +606,7 @@ def gen_dro_sep(rng, cfg):
             sc_ = add({'op': 'cons', 'id': cid, 'e': ce_}, s_tie + s_tiead, role='bound')
             sf_ = add({'op': 'forall', 'id': cid, 'amb': an_t}, [sc_, sa_t], role='set')
             add({'op': 'st', 'm': 'm', 'ids': [cid]}, [sf_] + s_amb, role='bound')
-    # dro: every expression is built after every decision variable exists (otherwise finding K6), except in the rare
-    # hazard draw where exactly that order dependence is exercised
+    # dro: in the other runs every expression is built after every decision variable exists
     if not hazard_late_dvar:
         dv = [s_['sid'] for s_ in steps if s_['op']['op'] == 'dvar']
         for s_ in steps:
